@@ -27,7 +27,7 @@ extern int vp_read_result;     /* what evbuffer_read() returns: >0 data, 0 EOF, 
 
 /* uninterpreted fnmatch: consistent verdict per (pattern,string) pointer pair */
 #define VP_MAXFN 12
-struct vp_fn { const char *pat; const char *str; int res; };
+struct vp_fn { const char *pat; const char *str; int res; char copy[12]; /* the string as it was when asked */ };
 extern struct vp_fn vp_fn_tab[VP_MAXFN];
 extern unsigned vp_fn_n;
 int vp_fnmatch_lookup(const char *pat, const char *str); /* -1 if never asked */
